@@ -77,6 +77,7 @@ static size_t gen_input(vrng *r, uint8_t *b, int fam, size_t cap, int hist_bits)
 	}
 	return n;
 }
+static int adler_c1;
 static const int ICH[] = { 0, 1, 2, 3, 7, 8, 9, 15, 16, 17, 31, 32, 33, 255, 256, 257, 288, 289, 32767, 32768, 32769, 65535, 65536, 1 << 30 };
 static const int OCH[] = { 1, 2, 3, 7, 8, 9, 15, 16, 17, 64, 223, 224, 225, 327, 328, 329, 1 << 30 };
 #define NICH ((int) (sizeof ICH / sizeof ICH[0]))
@@ -84,6 +85,7 @@ static const int OCH[] = { 1, 2, 3, 7, 8, 9, 15, 16, 17, 64, 223, 224, 225, 327,
 /* size of the next chunk for a "kind": <N: constant ICH[kind]; N: random small; N+1: random any; N+2: 1..7; N+3: alternating 1/300; N+4: geometric */
 static size_t chunk_size(vrng *r, const int *tab, int ntab, int kind, long callno)
 {
+	if (kind == 99) return callno <= 1 ? (size_t) adler_c1 : 1u << 30;   /* Adler saturation schedule, see gen_case */
 	if (kind < ntab) return tab[kind];
 	switch (kind - ntab) {
 	case 0: return vrn(r, 20);
@@ -486,6 +488,7 @@ static void gen_case(long idx, vrng *r, ccase *c, const char *prop)
 	if (!strcmp(prop, "C14")) { c->oneshot = 0; c->fkind = 1 + vrn(r, 5); c->infam = vrn(r, 4) ? 8 : 4; c->okind = vrn(r, 3) ? NOCH + 1 : (int) vrn(r, NOCH + 3); c->ikind = vrn(r, 2) ? 13 + vrn(r, 6) : NICH + 1; cap = 60000; }
 	if (!strcmp(prop, "C17")) { c->hist_bits = vrn(r, 8) ? 9 + vrn(r, 7) : 0; c->infam = vrn(r, 3) ? 5 : 7; cap = 262144; if (vrn(r, 3) == 0) { c->oneshot = 0; } }
 	if (!strcmp(prop, "C11")) { c->wrapper = 1 + vrn(r, 4); }
+	int adler_sat = !strcmp(prop, "C11") && vrn(r, 8) == 0;
 	if (!strcmp(prop, "C10")) { c->oneshot = vrn(r, 4) != 0; if (!c->oneshot) { c->okind = NOCH + 2 + vrn(r, 3); if (vrn(r, 3) == 0) c->okind = vrn(r, 3); c->ikind = NICH + 1; c->fkind = vrn(r, 3); c->eospol = vrn(r, 3); cap = 3000; } c->infam = vrn(r, 5) == 0 ? 0 : vrn(r, 3) == 0 ? 9 : vrn(r, 2) ? 3 : (int) vrn(r, 10); }
 	c->n = gen_input(r, inbuf, c->infam, cap, c->hist_bits);
 	if (!strcmp(prop, "C10") && c->oneshot) {
@@ -502,8 +505,12 @@ static void gen_case(long idx, vrng *r, ccase *c, const char *prop)
 		for (int k = 0; k < 12; k++) { size_t l = 4 + vrn(r, 300), from = vrn(r, 2) ? (c->dictlen > l ? c->dictlen - l - vrn(r, (uint32_t) (c->dictlen - l < 2000 ? c->dictlen - l + 1 : 2000)) : 0) : vrn(r, (uint32_t) c->dictlen), at = vrn(r, (uint32_t) n); if (from + l > c->dictlen) l = c->dictlen - from; if (at + l > n) l = n - at; memcpy(inbuf + at, dictbuf + from, l); }
 		c->n = n;
 	}
+	if (adler_sat) {   /* zlib trailer under a saturated Adler-32: a first checksum update that leaves A just below 65521, then >= 5552 bytes of 0xFF in one update */
+		adler_c1 = 241 + (int) vrn(r, 16) + 257 * (int) vrn(r, 8); c->n = (size_t) adler_c1 + 5552 + vrn(r, 20000); memset(inbuf, 0xff, c->n); if (vrn(r, 3) == 0) for (size_t i = 0; i < c->n; i += 1 + vrn(r, 900)) inbuf[i] = (uint8_t) (0xfc + vrn(r, 4));
+		c->infam = 2; c->oneshot = 0; c->ikind = 99; c->fkind = 1; c->okind = NOCH - 1; c->wrapper = vrn(r, 2) ? IGZIP_ZLIB : IGZIP_ZLIB_NO_HDR; c->discipline = 0; c->eospol = 0; c->dictmode = 0; c->fresh_out = 0;
+	}
 	if (c->oneshot) { c->chunked_mem = 0; if (c->level == 1 && vrn(r, 8) == 0) c->lvlkind = 9; }
-	else if (!c->dictmode) {
+	else if (!c->dictmode && c->ikind != 99) {
 		/* bound the number of calls per history: tiny chunks only with small inputs */
 		size_t lim = c->n;
 		if (c->okind < NOCH ? OCH[c->okind] <= 17 : (c->okind == NOCH || c->okind == NOCH + 2)) lim = c->fkind ? 700 : 3000;
